@@ -111,3 +111,41 @@ Example C04_wf_rejects :
   wf_schema ex_env (SScope [("R", SObject "R" false [("x", ex_prop (SRef "Missing" "" None) None false)])] "R") = false /\
   wf_schema ex_env (SMap SBool SAny None None) = false.
 Proof. vm_compute. split; reflexivity. Qed.
+
+(* ---------- appended by the C10 work package (Proofs/C10UseNoPanic.v, C10UseTerm.v, C10UseMain.v) ----------
+   The theorems above hold under a weaker hypothesis than wf_schema.  wf_schema asks that every object of a
+   scope is stored under its own id; no operation reads an object's id, and a scope received as a description
+   (C10) guarantees this for its root only.  wf_use = wf_schema with "id = key" replaced by "is an object". *)
+From Verif Require Import Proofs.C10UseNoPanic Proofs.C10UseMain.
+
+Theorem C04_wf_schema_iff_use : forall (e : env) (s : schema),
+  wf_schema e s = true <-> wf_use e s = true /\ ids_ok e s = true.
+Proof. exact wf_schema_iff_use. Qed.
+Print Assumptions C04_wf_schema_iff_use.
+
+Theorem C04_total_use :
+  forall (words : list (string * bool)) (pu : units -> string -> option fl)
+         (K : nat) (e : env) (s : schema) (v : gval),
+  wf_use e s = true -> no_inline_cycle e s = true -> defaults_total words pu K e s = true ->
+  forall f, (fuel_bound K e s v <= f)%nat ->
+    ((forall w, unser words pu f e s v <> Panic w) /\ unser words pu f e s v <> OutOfFuel) /\
+    ((forall w, validate words pu f e s v <> Panic w) /\ validate words pu f e s v <> OutOfFuel) /\
+    ((forall w, serialize words pu f e s v <> Panic w) /\ serialize words pu f e s v <> OutOfFuel) /\
+    ((forall w, compat words pu f e s v <> Panic w) /\ compat words pu f e s v <> OutOfFuel).
+Proof. exact c04_total_use. Qed.
+Print Assumptions C04_total_use.
+
+Theorem C04_never_panics_use :
+  forall (words : list (string * bool)) (pu : units -> string -> option fl) (e : env) (s : schema),
+  wf_use e s = true -> forall f v w,
+  unser words pu f e s v <> Panic w /\ validate words pu f e s v <> Panic w /\
+  serialize words pu f e s v <> Panic w /\ compat words pu f e s v <> Panic w.
+Proof. exact use_never_panics. Qed.
+Print Assumptions C04_never_panics_use.
+
+(* wf_use is strictly weaker: an object under a foreign key *)
+Example C04_wf_use_weaker :
+  let s := SScope [("R", ex_R); ("M", ex_M); ("K", SObject "Other" false [])] "R" in
+  wf_schema ex_env s = false /\ wf_use ex_env s = true /\ no_inline_cycle ex_env s = true /\
+  defaults_total [] ex_pu 20 ex_env s = true.
+Proof. vm_compute. repeat split; reflexivity. Qed.
